@@ -194,7 +194,8 @@ def scope(rc):
     fv = repo.func(EI, "VariableElimination._variable_elimination")
     # the all-variables branch (`if not variables`) must condition on the evidence as well
     for br in [n for n in walk_no_nested(fv.node) if isinstance(n, ast.If) and tm.is_(n.test, "not variables") is not None]:
-        uses_ev = any(isinstance(x, ast.Name) and x.id == "evidence" and isinstance(x.ctx, ast.Load) for st_ in br.body for x in ast.walk(st_)) or \
+        reduces = [c for st_ in br.body for c in ast.walk(st_) if isinstance(c, ast.Call) and call_name(c) == "reduce" and c.args]
+        uses_ev = any(any(isinstance(x, ast.Name) and x.id == "evidence" for x in ast.walk(c.args[0])) for c in reduces) or \
             any(isinstance(x, ast.Name) and x.id == "working_factors" for st_ in br.body for x in ast.walk(st_))
         rc.ob(f"_variable_elimination without variables: the evidence is applied to the factors: {uses_ev}")
         if not uses_ev:
@@ -273,7 +274,7 @@ def defuse(rc):
 
 MUTANTS = [
     dict(kind="break", name="all-variables-branch-ignores-evidence", file=EI, expect="C03.scope",
-         old="            # The evidence applies here as well: reduce every factor to it.\n            if evidence:\n", new="            # The evidence applies here as well: reduce every factor to it.\n            if False:\n"),
+         old="                            for var, state in evidence.items()\n                            if var in factor.scope()", new="                            for var, state in {}.items()\n                            if var in factor.scope()"),
     dict(kind="break", name="predict-distinct-rows-on-neighbours-only", file="pgmpy/models/BayesianNetwork.py", expect="C03.scope",
          old="            data_unique = data.drop_duplicates()\n            pred_values = []\n\n            # Send state_names dict", new="            data_unique = data.drop_duplicates(subset=[c for c in data.columns if c in set(self.get_markov_blanket(list(missing_variables)[0]))] or None)\n            pred_values = []\n\n            # Send state_names dict"),
     dict(kind="break", name="predict-per-variable-map", file="pgmpy/models/BayesianNetwork.py", expect="C03.scope",
